@@ -62,7 +62,7 @@ struct ABTD_ythread_context {
 #ifdef PMODELS_ARGOBOTS_VERIF
     void *verif_tsan_fiber; /* TSan fiber of this context */
     void *verif_asan_fake;  /* ASan fake stack saved across a switch */
-    int verif_tsan_owned;   /* fiber was created for this context */
+    int verif_tsan_owned;   /* 0: the OS thread's own fiber; else use count */
 #endif
 };
 
@@ -129,6 +129,7 @@ ABTD_ythread_context_lazy_unset_stack(ABTD_ythread_context *p_ctx)
 
 static inline void ABTD_ythread_context_reinit(ABTD_ythread_context *p_ctx)
 {
+    ABTD_VERIF_CTX_FINI(p_ctx);
     ABTDI_fcontext_init(&p_ctx->ctx);
     ABTD_atomic_relaxed_store_ythread_context_ptr(&p_ctx->p_link, NULL);
 }
